@@ -43,6 +43,33 @@ def producer_origin_text(ctx, body, t):
     return ">".join(names[:4])
 
 
+def env_names_of(ctx, body):
+    """Constant variable names that reach the `env::var(name)` call(s) of a helper closure / function
+    whose `name` is a parameter: read off the normalised view of the function(s) that use the helper."""
+    names = set()
+    tops = []
+    if body.kind == "Closure" and body.parent:
+        p = ctx.facts.body(body.parent)
+        while p is not None and p.kind == "Closure" and p.parent:
+            p = ctx.facts.body(p.parent)
+        if p is not None:
+            tops.append(p)
+    else:
+        for c in ctx.facts.bodies.values():
+            if c.promoted is None and any((t.get("res") or "") == body.id for _, t in c.calls()):
+                tops.append(c)
+    for top in tops:
+        v = ctx.inl(top, tag="all", sugar=True)
+        for bi, t in v.calls():
+            if re.search(r"^std::env::var(_os)?$", callee_name(t)) and t["args"]:
+                nm = const_arg_text(ctx, v, t)
+                if nm:
+                    names.add(nm)
+                else:
+                    return set()
+    return names
+
+
 # -------------------------------------------------------------------------------------------------
 # SH.err — no Result is swallowed
 # -------------------------------------------------------------------------------------------------
@@ -81,6 +108,25 @@ def sh_err(ctx, out, bodies, rule="SH.err", floor=1):
                         used.add("SH.err|found-or-not|binary_search")
                         out.exception("SH.err|found-or-not|binary_search", exc["SH.err|found-or-not|binary_search"])
                         continue
+                    fl = (t.get("span") or {}).get("file") or ""
+                    if callee_name(t) == "winnow::Parser::parse_peek" and fl.endswith("tag_parser.rs") and "SH.err|not-a-tag|parse_peek" in exc:
+                        used.add("SH.err|not-a-tag|parse_peek")
+                        out.exception("SH.err|not-a-tag|parse_peek", exc["SH.err|not-a-tag|parse_peek"])
+                        continue
+                    if callee_name(t) == "std::path::Path::strip_prefix" and fl.endswith("blocks.rs") and "SH.err|outside-root|strip_prefix" in exc \
+                            and re.search(r"swallow:unwrap_or|match-swallow|swallow:ok|swallow:unwrap_or_else", cls):
+                        used.add("SH.err|outside-root|strip_prefix")
+                        out.exception("SH.err|outside-root|strip_prefix", exc["SH.err|outside-root|strip_prefix"])
+                        continue
+                    # an environment variable read inside a helper closure / function that gets the
+                    # variable's name as an argument: the names are those of its (inlined) uses
+                    if re.search(r"^std::env::var(_os)?$", callee_name(t)) and not const_arg_text(ctx, b, t):
+                        names = env_names_of(ctx, b)
+                        if names and all(("SH.err|env|%s" % nm) in exc for nm in names):
+                            for nm in sorted(names):
+                                used.add("SH.err|env|%s" % nm)
+                                out.exception("SH.err|env|%s" % nm, exc["SH.err|env|%s" % nm])
+                            continue
                     # reading one of the documented environment variables: "unset" is not an error,
                     # wherever and with whichever idiom (unwrap_or, is_ok, match) the code reads it
                     envkey = "SH.err|env|%s" % detail
